@@ -250,6 +250,50 @@ end
 
 def exportDoc (j : JS) : Res GoVal := .ok (docOf j)
 
+/-! ### (b') Export of object graphs
+
+  JSON-like data is acyclic; shared sub-objects are ordinary data (JSON.stringify writes them out at every
+  occurrence), so Export of an acyclic graph must be structurally equal to its TREE UNFOLDING – object
+  identity is invisible.  On a cyclic graph the unfolding is cut exactly at a back edge (a reference to an
+  object that is an ancestor of the position), where the raw value is returned. -/
+
+def cutTree (E : Env) (a : Nat) : Tree := erase E (rawValue a)
+
+def mapTrees (f : HVal → Res Tree) : List (Option HVal) → Res Trees
+  | [] => .ok .nil
+  | none :: r => (mapTrees f r).map fun ts => .cons .null ts            -- a hole keeps its place
+  | some v :: r => (f v).bind fun t => (mapTrees f r).map fun ts => .cons t ts
+
+def mapTreeKVs (f : HVal → Res Tree) : List (List Nat × HVal) → Res TreeKVs
+  | [] => .ok .nil
+  | (k, v) :: r =>
+    if isUndefH v then mapTreeKVs f r
+    else (f v).bind fun t => (mapTreeKVs f r).map fun ts => .cons k t ts
+
+/-- tree unfolding; identity plays no role -/
+def unfoldTree (E : Env) (H : Heap) : Nat → HVal → Res Tree
+  | _, .leaf j => .ok (treeOf E j)
+  | 0, .ref _ => .err
+  | fuel + 1, .ref a =>
+    match H[a]? with
+    | none => .err
+    | some (.arr es) => (mapTrees (unfoldTree E H fuel) es).map .arr
+    | some (.obj ps) => (mapTreeKVs (unfoldTree E H fuel) ps).map .obj
+
+/-- unfolding cut at back edges: `anc` = the ancestors of the position -/
+def unfoldCut (E : Env) (H : Heap) : Nat → List Nat → HVal → Res Tree
+  | _, _, .leaf j => .ok (treeOf E j)
+  | 0, _, .ref _ => .err
+  | fuel + 1, anc, .ref a =>
+    if a ∈ anc then .ok (cutTree E a)
+    else match H[a]? with
+      | none => .err
+      | some (.arr es) => (mapTrees (unfoldCut E H fuel (a :: anc)) es).map .arr
+      | some (.obj ps) => (mapTreeKVs (unfoldCut E H fuel (a :: anc)) ps).map .obj
+
+/-- (b') Export of the graph rooted at v -/
+def exportGraph (E : Env) (H : Heap) (v : HVal) : Res Tree := unfoldCut E H (H.length + 1) [] v
+
 /-! ### (c) calls: the equivalent in-language call (ES5 §11.2.3, §15.3.4.4, §10.4.3) -/
 
 /-- thisArg of the equivalent in-language call: `probe.call(T, a…)`, `obj.probe(a…)`, `probe(a…)`,
@@ -423,6 +467,15 @@ def typedProps : JSProps → Bool
   | .nil => false
   | .cons _ v r => (!isUndef v && typedArr v) || typedProps r
 end
+
+/-- some heap Array has a hole, or a leaf does -/
+def hvalHole : HVal → Bool
+  | .leaf j => hasHole j
+  | .ref _ => false
+def nodeHole : HNode → Bool
+  | .arr es => es.any fun e => match e with | none => true | some v => hvalHole v
+  | .obj ps => ps.any fun p => hvalHole p.2
+def heapHole (H : Heap) (v : HVal) : Bool := hvalHole v || H.any nodeHole
 
 end Dev
 
